@@ -343,10 +343,15 @@ def job_sym(job):
 # materialisation of every accepted pair
 # ---------------------------------------------------------------------------
 OP_SKELETONS = {
-    'FULLY_CONNECTED': ['single_FC', 'single_FC_NOBIAS'],
-    'CONV_2D': ['single_CONV_2D'],
-    'DEPTHWISE_CONV_2D': ['single_DEPTHWISE_CONV_2D'],
-    'CONV_2D_TRANSPOSE': ['single_TRANSPOSE_CONV'],
+    'FULLY_CONNECTED': ['single_FC', 'single_FC_NOBIAS', 'single_FC_2INPUTS',
+                        'single_FC_RELU'],
+    'CONV_2D': ['single_CONV_2D', 'single_CONV_2D_NOBIAS',
+                'single_CONV_2D_2INPUTS'],
+    'DEPTHWISE_CONV_2D': ['single_DEPTHWISE_CONV_2D',
+                          'single_DEPTHWISE_CONV_2D_NOBIAS',
+                          'single_DEPTHWISE_CONV_2D_2INPUTS'],
+    'CONV_2D_TRANSPOSE': ['single_TRANSPOSE_CONV', 'single_TRANSPOSE_CONV_NOBIAS',
+                          'single_TRANSPOSE_CONV_EMPTY_BIAS'],
     'BATCH_MATMUL': ['single_BMM', 'single_BMM_CONST', 'single_BMM_CONST_ADJY'],
     'EMBEDDING_LOOKUP': ['single_EMBEDDING_LOOKUP'],
     'ADD': ['single_ADD', 'single_ADD_CONST', 'single_ADD_SAME'],
@@ -368,8 +373,10 @@ def mat_cases(tier):
   cs = []
   for i, (alg, op, cfg) in enumerate(accepted_pairs()):
     sk = OP_SKELETONS.get(op.value, [])
-    if tier == 'quick':
-      sk = sk[:1]
+    if tier == 'quick' and op.value not in (
+        'FULLY_CONNECTED', 'CONV_2D', 'DEPTHWISE_CONV_2D',
+        'CONV_2D_TRANSPOSE'):
+      sk = sk[:1]  # (the weight ops: every operand-list variant)
     for s in sk:
       cs.append((i, s))
   return cs
